@@ -775,8 +775,13 @@ def trace_lines(funcs):
     if mon.get_tool(_TOOL) is None:
         mon.use_tool_id(_TOOL, 'schedx')
         mon.register_callback(_TOOL, mon.events.LINE, _on_line)
-    for f in funcs:
-        code = f if isinstance(f, types.CodeType) else getattr(f, '__code__', None) or f.__func__.__code__
+    codes = [f if isinstance(f, types.CodeType) else getattr(f, '__code__', None) or f.__func__.__code__ for f in funcs]
+    # exactly this set: what an earlier case of the same worker process traced must not add points to this one
+    for code in list(_traced):
+        if code not in codes:
+            mon.set_local_events(_TOOL, code, 0)
+            _traced.discard(code)
+    for code in codes:
         if code not in _traced:
             _traced.add(code)
             mon.set_local_events(_TOOL, code, mon.events.LINE)
